@@ -436,6 +436,9 @@ class Extractor:
             # verifier option (specification only): facts established before a loop stay known inside it
             segs.insert(0, Seg('#[verifier::loop_isolation(false)]\n'))
             rules.append(('E1', 'verifier attribute loop_isolation(false)', ''))
+        if opts.get('complexinv'):
+            segs.insert(0, Seg('#[verifier::allow_complex_invariants]\n'))
+            rules.append(('E1', 'verifier attribute allow_complex_invariants', ''))
         # ---- contract (E1) ----
         if contract.strip():
             segs.append(Seg(contract if contract.endswith('\n') else contract + '\n'))
@@ -581,6 +584,9 @@ class Extractor:
                 if rt.get('fin'):
                     # specification only: a ghost name for the value the receiver will have when the cursor's borrow of it ends
                     ghost = 'let ghost ' + rt['fin'] + ' = *final(' + cur + '.map);\n'
+                if rt.get('old'):
+                    # specification only: a ghost name for the receiver's value when the cursor is created
+                    ghost += 'let ghost ' + rt['old'] + ' = *' + cur + '.map;\n'
                 head = ('{ let mut ' + cur + ' = ' + recv + '.retain_cursor();\n' + ghost + 'loop\n' + rt['inv'].rstrip('\n') + '\n{ let (' + params + ') = match ' + cur
                         + '.next() { Some(e__) => e__, None => break };\nlet keep__: bool = ' + ('' if is_block else '{ '))
                 dels.append((a, b, head))
@@ -767,7 +773,8 @@ def build_unit(template_path, repo_root, vacuity=False):
                     k = int(la[0])
                     cn = [x[4:] for x in la[1:] if x.startswith('cur=')]
                     fn_ = [x[4:] for x in la[1:] if x.startswith('fin=')]
-                    retains[k] = dict(cur=cn[0] if cn else f'cur{k}__', fin=fn_[0] if fn_ else None, lines=[])
+                    on_ = [x[4:] for x in la[1:] if x.startswith('old=')]
+                    retains[k] = dict(cur=cn[0] if cn else f'cur{k}__', fin=fn_[0] if fn_ else None, old=on_[0] if on_ else None, lines=[])
                     cur = retains[k]['lines']
                 elif m2 and m2.group(1) == 'CLOSURE':
                     # //@CLOSURE k | typed parameter list | ret: Type      (following lines: requires / ensures)
